@@ -149,3 +149,39 @@ M('C01', 'verify-wrong-key', AUTH, '.ed25519_verify(&public_key, msg_hash.to_byt
 M('C01', 'empty-messages-allowed', GW, '        ensure!(!messages.is_empty(), ContractError::EmptyMessages);\n', '', 'C01.R1')
 M('C01', 'validate_proof-threshold-from-weight-sum-saturating', AUTH, '            total_weight = total_weight.checked_add(weight).unwrap();', '            total_weight = total_weight.saturating_add(weight);', 'C01')
 M('C01', 'sig-loop-while-equiv', AUTH, '            if total_weight >= proof.threshold {\n                return true;\n            }', '            if proof.threshold <= total_weight {\n                return true;\n            }', equiv=True)
+
+# ---------------- C09 ----------------
+M('C09', 'no-delay-check', AUTH, '    if enforce_rotation_delay {\n        ensure!(\n            current_timestamp - last_rotation_timestamp >= minimum_rotation_delay,\n            ContractError::InsufficientRotationDelay\n        );\n    }\n', '    let _ = (enforce_rotation_delay, minimum_rotation_delay, last_rotation_timestamp);\n', 'C09.R1')
+M('C09', 'delay-strictly-greater', AUTH, 'current_timestamp - last_rotation_timestamp >= minimum_rotation_delay', 'current_timestamp - last_rotation_timestamp > minimum_rotation_delay', 'C09.R1')
+M('C09', 'enforce-flag-inverted', GW, '        auth::rotate_signers(&env, &signers, !bypass_rotation_delay)?;', '        auth::rotate_signers(&env, &signers, bypass_rotation_delay)?;', 'C09.R1')
+M('C09', 'enforce-always-false', GW, '        auth::rotate_signers(&env, &signers, !bypass_rotation_delay)?;', '        auth::rotate_signers(&env, &signers, false)?;', 'C09.R1')
+M('C09', 'bypass-does-not-restart-clock', AUTH, '    env.storage()\n        .instance()\n        .set(&DataKey::LastRotationTimestamp, &current_timestamp);\n\n    Ok(())',
+  '    if enforce_rotation_delay {\n        env.storage()\n            .instance()\n            .set(&DataKey::LastRotationTimestamp, &current_timestamp);\n    }\n\n    Ok(())', 'C09.R2')
+M('C09', 'clock-compared-after-write', AUTH, '    let current_timestamp = env.ledger().timestamp();\n\n    if enforce_rotation_delay {',
+  '    let current_timestamp = env.ledger().timestamp();\n    env.storage().instance().set(&DataKey::LastRotationTimestamp, &current_timestamp);\n    let last_rotation_timestamp: u64 = env.storage().instance().get(&DataKey::LastRotationTimestamp).unwrap_or(0);\n\n    if enforce_rotation_delay {', 'C09.R1')
+M('C09', 'delay-wrapping-sub', AUTH, 'current_timestamp - last_rotation_timestamp >= minimum_rotation_delay', 'current_timestamp.wrapping_sub(last_rotation_timestamp) >= minimum_rotation_delay', 'C09.R1')
+M('C09', 'delay-rewritten-equiv', AUTH, '        ensure!(\n            current_timestamp - last_rotation_timestamp >= minimum_rotation_delay,\n            ContractError::InsufficientRotationDelay\n        );',
+  '        if current_timestamp - last_rotation_timestamp < minimum_rotation_delay {\n            return Err(ContractError::InsufficientRotationDelay);\n        }', equiv=True)
+
+# ---------------- C08 ----------------
+M('C08', 'retention-off-by-one', AUTH, 'current_epoch - signers_epoch <= previous_signers_retention', 'current_epoch - signers_epoch < previous_signers_retention', 'C08')
+M('C08', 'retention-plus-one', AUTH, 'current_epoch - signers_epoch <= previous_signers_retention', 'current_epoch - signers_epoch <= previous_signers_retention + 1', 'C08')
+M('C08', 'latest-check-dropped', GW, '        ensure!(\n            bypass_rotation_delay || is_latest_signers,\n            ContractError::NotLatestSigners\n        );\n', '        let _ = is_latest_signers;\n', 'C08.R3')
+M('C08', 'latest-means-retained', AUTH, '    let is_latest_signers: bool = signers_epoch == current_epoch;', '    let is_latest_signers: bool = signers_epoch <= current_epoch;', 'C08.R3')
+M('C08', 'epoch-plus-two', AUTH, '    let new_epoch: u64 = epoch(env) + 1;', '    let new_epoch: u64 = epoch(env) + 2;', 'C08.R4')
+M('C08', 'retention-guard-reordered-equiv', AUTH, '        current_epoch - signers_epoch <= previous_signers_retention,', '        previous_signers_retention >= current_epoch - signers_epoch,', equiv=True)
+
+# ---------------- C03 ----------------
+M('C03', 'order-non-strict', AUTH, '            previous_signer < signer.signer,', '            previous_signer <= signer.signer,', 'C03.R1')
+M('C03', 'no-weight-check', AUTH, '        ensure!(signer.weight != 0, ContractError::InvalidWeight);\n', '', 'C03.R1')
+M('C03', 'threshold-zero-allowed', AUTH, '        threshold != 0 && total_weight >= threshold,', '        total_weight >= threshold,', 'C03.R1')
+M('C03', 'threshold-above-total-allowed', AUTH, '        threshold != 0 && total_weight >= threshold,', '        threshold != 0,', 'C03.R1')
+M('C03', 'weights-wrapping', AUTH, '        total_weight = total_weight\n            .checked_add(signer.weight)\n            .ok_or(ContractError::WeightOverflow)?;', '        total_weight = total_weight.wrapping_add(signer.weight);', 'C03.R1')
+M('C03', 'no-duplicate-check', AUTH, '    ensure!(\n        epoch_by_signers_hash(env, new_signers_hash.clone()).is_err(),\n        ContractError::DuplicateSigners\n    );\n', '', 'C03.R2')
+M('C03', 'rotation-proof-over-other-command', TYPES, '            .keccak256(&(CommandType::RotateSigners, self.clone()).to_xdr(env))', '            .keccak256(&(CommandType::ApproveMessages, self.clone()).to_xdr(env))', 'C03.R3')
+M('C03', 'rotation-proof-not-over-set', GW, '        let data_hash: BytesN<32> = signers.signers_rotation_hash(&env);', '        let data_hash: BytesN<32> = proof.weighted_signers().signers_rotation_hash(&env);', 'C03.R3')
+M('C03', 'maps-disagree-on-epoch', AUTH, '        &DataKey::EpochBySignersHash(new_signers_hash.clone()),\n        &new_epoch,', '        &DataKey::EpochBySignersHash(new_signers_hash.clone()),\n        &epoch(env),', None)
+M('C03', 'prev-signer-not-updated', AUTH, '        previous_signer = signer.signer;\n        total_weight', '        total_weight', 'C03.R1')
+M('C03', 'validate-after-install', AUTH, '    validate_signers(env, new_signers)?;\n\n    update_rotation_timestamp(env, enforce_rotation_delay)?;', '    update_rotation_timestamp(env, enforce_rotation_delay)?;', 'C03.R1')
+M('C03', 'constructor-allows-empty', AUTH, '    ensure!(!initial_signers.is_empty(), ContractError::EmptySigners);\n', '', 'C03.R5')
+M('C03', 'constructor-ignores-failure', AUTH, '        rotate_signers(&env, &signers, false)?;', '        let _ = rotate_signers(&env, &signers, false);', None)
